@@ -9,6 +9,7 @@ import (
 	"os"
 	"path/filepath"
 	"sort"
+	"strings"
 	"time"
 
 	"github.com/lindb/lindb/kv"
@@ -476,6 +477,115 @@ func main() {
 			out.Check(idx, fmt.Sprintf("check_load %s %d %s", vh.List(filesCoq), k, vh.List(vals)))
 		}
 		snap.Close()
+		_ = kv.GetStoreManager().CloseStore(storePath)
+	}
+	// ---------- Load over a version with files in two levels: rounds of flushes into a key window followed by a compaction;
+	// a later compaction's output can enclose the key range of a level-1 file it did not take as input. The merger
+	// concatenates the values of a key, every flushed value is two bytes: what Load returns for a key, cut into pairs,
+	// must be the values flushed for it, each once ----------
+	for i := 0; i < cfg.N/10+2; i++ {
+		storePath := filepath.Join(root, fmt.Sprintf("lv%d", i))
+		store, err := kv.GetStoreManager().CreateStore(storePath, kv.DefaultStoreOption())
+		if err != nil {
+			out.Violation(0, "create-store", err.Error(), nil)
+			continue
+		}
+		family, err := store.CreateFamily("f", kv.FamilyOption{Merger: "verif-concat", CompactThreshold: 2, MaxFileSize: 1 << 30})
+		if err != nil {
+			out.Violation(0, "create-family", err.Error(), nil)
+			continue
+		}
+		flushed := map[uint32][]string{}
+		type roundJ struct {
+			Files [][]uint32 `json:"files"`
+		}
+		var rounds []roundJ
+		serial := 0
+		windows := [][2]int{{100, 200}, {1, 1001}, {150, 160}, {5000, 5001}, {120, 130}, {0, 5002}}
+		perm := r.Perm(len(windows))
+		nr := r.Range(2, 4)
+		if i == 0 {
+			perm, nr = []int{0, 1, 2, 3, 4, 5}, 2 // [100..200] first, then an output [1..1001] that encloses it
+		}
+		for rd := 0; rd < nr; rd++ {
+			w := windows[perm[rd]]
+			var rj roundJ
+			for f := 0; f < 2; f++ {
+				keys := map[uint32]bool{}
+				if f == 0 {
+					keys[uint32(w[0])] = true
+				} else {
+					keys[uint32(w[1])] = true
+				}
+				if i > 0 || rd > 0 { // the directed case keeps the first window's middle free of the second round's keys
+					for x := r.Intn(3); x > 0; x-- {
+						keys[uint32(r.Range(w[0], w[1]))] = true
+					}
+				} else if f == 0 {
+					keys[150] = true
+				}
+				var ks []uint32
+				for k := range keys {
+					ks = append(ks, k)
+				}
+				sort.Slice(ks, func(a, b int) bool { return ks[a] < ks[b] })
+				fl := family.NewFlusher()
+				for _, k := range ks {
+					serial++
+					v := []byte{byte(serial >> 8), byte(serial)}
+					flushed[k] = append(flushed[k], string(v))
+					_ = fl.Add(k, v)
+				}
+				if err := fl.Commit(); err != nil {
+					out.Violation(0, "flush-commit", err.Error(), nil)
+				}
+				fl.Release()
+				rj.Files = append(rj.Files, ks)
+			}
+			family.Compact()
+			time.Sleep(2 * time.Millisecond)
+			kv.VerifWaitBackground(family)
+			rounds = append(rounds, rj)
+		}
+		tmp := family.GetSnapshot()
+		l1 := tmp.GetCurrent().NumberOfFilesInLevel(1)
+		tmp.Close()
+		idx := out.Case(map[string]interface{}{"kind": "load-two-levels", "rounds": rounds, "level1_files": l1}, l1 >= 2)
+		out.Count("load-two-levels")
+		out.Count(fmt.Sprintf("load-two-levels:level1-files:%d", l1))
+		var keys []uint32
+		for k := range flushed {
+			keys = append(keys, k)
+		}
+		sort.Slice(keys, func(a, b int) bool { return keys[a] < keys[b] })
+		bad := ""
+		for rep := 0; rep < 12 && bad == ""; rep++ { // the files of a level are visited in map order: several fresh snapshots
+			snap := family.GetSnapshot()
+			for _, k := range keys {
+				var got []string
+				if err := snap.Load(k, func(v []byte) error {
+					for p := 0; p+1 < len(v); p += 2 {
+						got = append(got, string(v[p:p+2]))
+					}
+					return nil
+				}); err != nil {
+					bad = fmt.Sprintf("Load(%d): %v", k, err)
+					break
+				}
+				want := append([]string(nil), flushed[k]...)
+				sort.Strings(got)
+				sort.Strings(want)
+				if strings.Join(got, ",") != strings.Join(want, ",") {
+					bad = fmt.Sprintf("Load(%d) returned %d of the %d values flushed for the key (fresh snapshot %d)", k, len(got), len(want), rep)
+					break
+				}
+			}
+			snap.Close()
+		}
+		if bad != "" {
+			out.Violation(idx, "load-two-levels", bad, nil)
+		}
+		out.Check(idx, "(0%nat, 0%nat)")
 		_ = kv.GetStoreManager().CloseStore(storePath)
 	}
 	out.Finish()
